@@ -40,8 +40,11 @@ def main():
                 continue
             env = dict(os.environ, FEMIO_REPO=wt)
             verdicts = []
-            for pr in (props_all if all_checks else [meta['property']] + list(meta.get('also_check', []))):
-                out = sh(f'./check {pr} --tier quick', cwd=HERE, env=env)
+            todo = props_all if all_checks else [meta['property']] + list(meta.get('also_check', []))
+            from concurrent.futures import ThreadPoolExecutor
+            with ThreadPoolExecutor(4) as ex:
+                outs = list(ex.map(lambda pr: sh(f'./check {pr} --tier quick', cwd=HERE, env=env), todo))
+            for pr, out in zip(todo, outs):
                 last = [l for l in out.stdout.splitlines() if l.startswith(pr + ' ')]
                 viol = [l for l in out.stdout.splitlines() if l.startswith('VIOLATION')]
                 ok = out.returncode == 0 and not viol
